@@ -38,6 +38,7 @@ type Config struct {
 	MaxViolations   int
 	TimeBudget      time.Duration
 	SolverLog       string
+	CrossCheck      bool // re-decide every solver-discharged assertion on z3 4.8.12 and cvc5
 }
 
 // repoRoot is /repo; VERIF_REPO redirects development-time experiments
@@ -197,6 +198,7 @@ type Engine struct {
 	knownLabels map[string]bool
 	fixed       []NondetVal // concrete re-execution: nondet values in order
 	loose       []uint64    // translator validation stream
+	crossTL     sync.Map    // primary solver -> cross-check solvers of that worker
 }
 
 func (e *Engine) allowed(fn *ssa.Function) bool {
@@ -265,6 +267,8 @@ type HarnessResult struct {
 	Forks       int
 	Durations   map[string]int
 	Truncated   bool
+	CrossChecked int
+	CrossUnknown int
 }
 
 func (e *Engine) Explore() *HarnessResult {
@@ -292,6 +296,15 @@ func (e *Engine) Explore() *HarnessResult {
 			solver.log = f
 		}
 		defer solver.Close()
+		var cross []*Solver
+		if e.cfg.CrossCheck {
+			for _, name := range []string{"z3", "cvc5"} {
+				if cs, err := NewSolver(name); err == nil {
+					cross = append(cross, cs)
+					defer cs.Close()
+				}
+			}
+		}
 		for {
 			mu.Lock()
 			for len(work) == 0 && active > 0 && !stop {
@@ -307,6 +320,7 @@ func (e *Engine) Explore() *HarnessResult {
 			active++
 			mu.Unlock()
 
+			e.crossTL.Store(solver, cross)
 			res := e.runPath(solver, prefix)
 
 			mu.Lock()
@@ -358,6 +372,8 @@ func (e *Engine) Explore() *HarnessResult {
 				hr.Durations[d]++
 			}
 			hr.Asserts += res.Asserts
+			hr.CrossChecked += res.CrossChecked
+			hr.CrossUnknown += res.CrossUnknown
 			hr.AssertsTrivial += res.AssertsTrivial
 			hr.Instrs += res.Instrs
 			hr.SolverCalls += res.SolverCalls
